@@ -488,3 +488,45 @@ def gen_document(rng, depth=0, python_form=True):
     n = rng.randint(1, 4)
     keys = rng.sample(["z", "cfg", "items", "name", "Ω", "deep", "n"], n)
     return {k: node(1) for k in keys}
+
+
+def gen_document_recipe(rng, python_form=True, alias_p=0.35):
+    """a nested document recipe; with probability alias_p one container object (dict or list) is reachable
+    from two places, as YAML anchors/merges or a Python description built around a shared sub-dictionary produce"""
+    doc = gen_document(rng, python_form=python_form)
+    rec = {"kind": "value", "v": enc(doc)}
+    if rng.random() >= alias_p:
+        return rec
+    conts = []      # (path, object) of nested containers
+
+    def walk(o, path):
+        if isinstance(o, dict):
+            if path:
+                conts.append((path, o))
+            for k, v in o.items():
+                walk(v, path + [k])
+        elif isinstance(o, list):
+            if path:
+                conts.append((path, o))
+            for i, v in enumerate(o):
+                walk(v, path + [i])
+    walk(doc, [])
+    if not conts:
+        return rec
+    src_path, src = rng.choice(conts)
+    # destination: a new key in a dictionary that is neither the shared container nor inside it (no cycles)
+    dicts = [([], doc)] + [(p, o) for p, o in conts if isinstance(o, dict)]
+    dicts = [(p, o) for p, o in dicts if p[:len(src_path)] != src_path and not _is_notation(o)]
+    if not dicts:
+        return rec
+    dpath, dobj = rng.choice(dicts)
+    key = rng.choice(["shared", "again", "ref"])
+    if key in dobj:
+        return rec
+    dobj[key] = None          # placeholder, replaced by the alias when the object is built
+    rec = {"kind": "value", "v": enc(doc), "alias": [[src_path, dpath + [key]]]}
+    return rec
+
+
+def _is_notation(o):
+    return isinstance(o, dict) and sorted(o.keys()) in (["imag", "real"], ["abs", "phase"], ["abs", "phase_deg"])
